@@ -73,9 +73,54 @@ def generate_tight(rng, run_seed):
             "policies": common.gen_policies(rng, run_seed, kinds=("asc", "desc", "seeded")), "adv_seed": derive(run_seed, "adv") % 10**6}
 
 
+def generate_straddle(rng, run_seed):
+    """the seats the coalition is NOT owed are contested by outsiders sitting exactly on the quota, except one who is short of
+    it by less than 1e-9: treating that one as level with the others (rounded or float tallies) hands it a seat the coalition
+    is owed.  N = (m+1)q - eps keeps the threshold at q."""
+    for _ in range(20):
+        n = rng.randint(3, 6)
+        k = rng.randint(1, 2)
+        s = rng.randint(k, k + 1)
+        if n - s < 1:
+            continue
+        m = rng.randint(k, n - s + k - 1) if n - s + k - 1 >= k else None
+        if m is None:
+            continue
+        j = m + 1 - k
+        if j < 1 or j > n - s:
+            continue
+        names, fam = G.gen_names(rng, n)
+        S = rng.sample(names, s)
+        others = [c for c in names if c not in S]
+        rng.shuffle(others)
+        q = rng.randint(3, 40)
+        eps = rng.choice([Fraction(1, 10**12), Fraction(1, 10**15), Fraction(1, 2**40), Fraction(1, 3 * 10**10)])
+        ballots = []
+        for w in partition(rng, k * q, rng.randint(2, 5)):
+            order = rng.sample(S, s)
+            tail = rng.sample(others, rng.randint(0, len(others)))
+            ballots.append(([[c] for c in order + tail], Fraction(w)))
+        for i, o in enumerate(others[:j]):
+            parts = [Fraction(w) for w in partition(rng, q, rng.randint(1, 2))]
+            if i == 0:
+                parts[0] -= eps
+            for w in parts:
+                tail = rng.sample([c for c in names if c != o], rng.randint(0, n - 1))
+                ballots.append(([[o]] + [[c] for c in tail], w))
+        rng.shuffle(ballots)
+        jp = {"candidates": names, "ballots": [{"r": r, "w": canon.fs(w)} for r, w in ballots]}
+        kw = {"m": m, "quota": "droop", "simultaneous": rng.random() < 0.5, "tiebreak": rng.choice(["random", "borda", "first_place"]), "transfer": "fractional"}
+        return {"rule": "STV", "kw": kw, "profile": jp, "shape": {"n": n, "names": fam, "wfam": "straddle", "planted": [sorted(S)], "nb": len(ballots), "tight": [k, q]},
+                "policies": common.gen_policies(rng, run_seed, kinds=("asc", "desc", "seeded")), "adv_seed": derive(run_seed, "adv") % 10**6}
+    return generate_tight(rng, run_seed)
+
+
 def generate(run_seed, tier):
     rng = stream(run_seed, "gen")
-    if rng.random() < 0.4:
+    u = rng.random()
+    if u < 0.08:
+        return generate_straddle(rng, run_seed)
+    if u < 0.4:
         return generate_tight(rng, run_seed)
     n = G.wchoice(rng, [(2, 1), (3, 3), (4, 4), (5, 4), (6, 2)])
     names, fam = G.gen_names(rng, n)
